@@ -526,11 +526,19 @@ func (e Element) Write(w io.Writer, indent int) error {
 	if err := writeIndent(w, indent, "<", e.Name); err != nil {
 		return err
 	}
+	// A conditional attribute is always written over several lines, so the attributes of an
+	// element that has one cannot stay on the line of the tag.
+	indentAttrs := e.IndentAttrs
+	for _, a := range e.Attributes {
+		if _, isConditional := a.(ConditionalAttribute); isConditional {
+			indentAttrs = true
+		}
+	}
 	for i := range e.Attributes {
 		a := e.Attributes[i]
 		// Only the conditional attributes get indented.
 		var attrIndent int
-		if e.IndentAttrs {
+		if indentAttrs {
 			if _, err := w.Write([]byte("\n")); err != nil {
 				return err
 			}
@@ -545,7 +553,7 @@ func (e Element) Write(w io.Writer, indent int) error {
 		}
 	}
 	var closeAngleBracketIndent int
-	if e.IndentAttrs {
+	if indentAttrs {
 		if _, err := w.Write([]byte("\n")); err != nil {
 			return err
 		}
